@@ -597,3 +597,26 @@ def deframer_and_loop_polarity(ctx):
                     ok = bool(brk & on) and bool(sends & reach_other)
                     ctx.check(ok, f'{h.qualname}:the message loop ends when there is no complete line', t.ast, 'break on the None side, dispatch on the other',
                               f'`{src(t.ast)}`: the loop is left when a message IS there (it is dropped) and goes on to dispatch None', h)
+
+
+@rule('C07.R1c', min_instances=1)
+def undecodable_line_is_reported_not_dropped(ctx):
+    """next_message: a line that can not be decoded leaves as DecodeError (carrying the raw line, so that handle() can answer
+    with an error reply) - a handler that swallows the exception makes next_message return None, which the loop reads as "no
+    complete line yet": the request gets no reply"""
+    m = ctx.m
+    n = 0
+    for q in m.subclasses(roles.HANDLER):
+        ci = m.classes[q]
+        f = ci.methods.get('next_message')
+        if f is None:
+            continue
+        for h in [x for x in body_walk(f.node) if isinstance(x, ast.ExceptHandler)]:
+            n += 1
+            ctx.analysed(f)
+            last = h.body[-1] if h.body else None
+            ok = isinstance(last, ast.Raise) and last.exc is not None and 'DecodeError' in src(last.exc) and 'raw_msg' in src(last.exc)
+            ctx.check(ok, f'{f.qualname}:decode failure leaves as DecodeError', h, 'raise DecodeError(..., raw_msg=...)',
+                      'the handler of next_message does not end in `raise DecodeError(..., raw_msg=<line>)`: an undecodable request line is dropped without reply', f)
+    if not n:
+        raise AnchorMissing('no exception handler in any next_message')
